@@ -37,6 +37,9 @@ TRUSTED = [
     "the model of CPython 3.12's compensated builtin sum() (JF.Lifting.pySum) is validated against the running "
     "interpreter's sum() in this run",
     "the stand-in for random.uniform computes a + (b - a) * u like CPython's random.Random.uniform",
+    "the model keeps _negative_lifting_rates/_associated_identifiers as one list of pairs (they are only appended to "
+    "and cleared together in lifting.py); the session correspondence compares the list length after every call",
+    "binary64_* theorems: the Lean kernel's evaluation of native Float operations (decide +kernel)",
 ]
 
 SCHEMES = ("inside", "outside", "ratio")
@@ -433,7 +436,7 @@ def _run(ctx, rng, classes, d1, d2, LiftingSchemeError):
             check_table(Table(perm, list(range(len(perm), 0, -1)), "all-orders"), logp=0.25)
 
     # ---- 3. seeded random tables
-    n_tables = ctx.n(1500, 40000)
+    n_tables = ctx.n(1200, 40000)
     for k in range(n_tables):
         check_table(gen_table(rng), logp=1.0 if ctx.quick else 0.3)
     ctx.count("implementation-evaluations-for-bisection", budget["eval"])
@@ -691,3 +694,45 @@ def glue(ctx, rng, classes, d1, d2, check_table, lines, expect, cases, fail_capp
     finally:
         MF.random = saved
         setting.reset()
+
+
+def replay(ctx, rep):
+    """re-run one recorded case (`case` of a replay file / witness of known_findings/C05.json) on the implementation
+    and on the model"""
+    import jellyfysh.lifting.lifting as ML
+    import jellyfysh.lifting.ratio_lifting as MR
+    from jellyfysh.lifting.inside_first_lifting import InsideFirstLifting
+    from jellyfysh.lifting.outside_first_lifting import OutsideFirstLifting
+    from jellyfysh.lifting.ratio_lifting import RatioLifting
+    case = rep.get("case") or rep.get("witness") or rep
+    if "rates" not in case or "scheme" not in case:
+        return {"note": "this replay file names a disagreement/proof problem, not a single move", "file": rep}
+    rates = [float.fromhex(r) for r in case["rates"]]
+    ids = case.get("ids") or list(range(10, 10 + len(rates)))
+    sch = case["scheme"]
+    a = case.get("active", 0)
+    a = a[0] if isinstance(a, list) else a
+    u = float.fromhex(case.get("u", "0x0p0"))
+    u2 = float.fromhex(case.get("u2", "0x1p-1"))
+    cls = {"inside": InsideFirstLifting, "outside": OutsideFirstLifting, "ratio": RatioLifting}[sch]
+    d1, d2 = Draw(), Draw()
+    d1.u, d2.u = u, u2
+    saved = (ML.random, MR.random)
+    ML.random, MR.random = d1, d2
+    try:
+        obj = cls()
+        try:
+            for i, r in enumerate(rates):
+                obj.insert(r, (ids[i],), i == a)
+            res = "id:%d" % obj.get_active_identifier()[0]
+        except Exception as e:  # noqa
+            res = "err:" + type(e).__name__
+    finally:
+        ML.random, MR.random = saved
+    t = Table(rates, ids, "replay")
+    model = ctx.model("lift", [f"choose {sch} {a} {f2b(u)} {f2b(u2)} {t.line()}"])[0]
+    sel = None
+    if res.startswith("id:") and int(res[3:]) in ids:
+        sel = rates[ids.index(int(res[3:]))]
+    return {"implementation": res, "model": model, "derivative_of_selected_unit": sel,
+            "table_sums_to_zero_exactly": t.exact}
